@@ -159,6 +159,8 @@ def gen_model(rng: random.Random, profile: Profile | None = None, **knobs) -> Mo
         if cand not in snames and cand not in pnames and not _DERIV.match(cand):
             inames.append(cand)
     comps = [""] if n_comp == 1 and rng.random() < 0.6 else rng.sample(COMP_POOL, n_comp)
+    if n_comp > 1 and knobs.get("mixed_unnamed", rng.random() < 0.25):
+        comps[0] = ""  # the default (unnamed) component next to named ones
     comp_of = {}
     spec = ModelSpec()
     spec.meta.update(shape=shape, shuffle=use_before_def, n_comp=len(comps))
@@ -262,6 +264,13 @@ def gen_model(rng: random.Random, profile: Profile | None = None, **knobs) -> Mo
         comp_of[dn] = comp_of[s]
         order.append(dn)
 
+    if knobs.get("ref_derivs"):
+        # an extra intermediate per state that reads the state's derivative (legal: derivatives are assignments)
+        for j, s_ in enumerate(snames[: 2]):
+            nm = f"rate_of_{j}"
+            defs_text[nm] = f"0.1 * d{s_}_dt + {rng.choice(['0.5', '1', '0.25'])}"
+            comp_of[nm] = rng.choice(comps)
+            order.append(nm)
     if use_before_def:
         rng.shuffle(order)
     # text order: unnamed component first, then one block per component (stable)
